@@ -71,6 +71,13 @@ def dunders_read(fns):
     return sorted(names)
 
 
+LIB_CLASS_IDS = {'Generic': 0, 'GenericMixin': 1, 'ABC': 2, 'WithDecoratedMethods': 3}      # ids of the library classes in a class table
+
+
+def decorators_of(fn):
+    return [ast.unparse(d) for d in fn.decorator_list]
+
+
 def gen_generic(repo):
     tree = ast.parse(src(repo, GM))
     gt = find_func(tree, '_get_types', 'GenericMixin')
@@ -117,13 +124,38 @@ def gen_generic(repo):
     f['loopIterAttr'] = attr_chain(loop.iter)[1]
     bv = loop.target.id
     lb = body_of(loop)
-    if len(lb) != 3:
-        raise Skip('_get_types: loop body is not (skip-test, lookup, found-test)')
-    l1, l2, l3 = lb
+    if len(lb) not in (3, 4):
+        raise Skip('_get_types: loop body is not (skip-test, [origin-class test,] lookup, found-test)')
+    l1, l2, l3 = lb[0], lb[-2], lb[-1]
     h = isinstance(l1, ast.If) and not_hasattr(l1.test)
     if not (h and is_name(h[0], bv) and len(l1.body) == 1 and isinstance(l1.body[0], ast.Continue) and not l1.orelse):
         raise Skip('_get_types: loop does not start with `if not hasattr(base, <attr>): continue`')
     f['loopOriginAttr'] = h[1]
+    # optional second test: `if not ([isinstance(base.<origin>, type) and] issubclass(base.<origin>, <Class>)): continue`
+    f['loopOriginMustDeriveFrom'] = None
+    if len(lb) == 4:
+        l1b = lb[1]
+        ok = isinstance(l1b, ast.If) and not l1b.orelse and len(l1b.body) == 1 and isinstance(l1b.body[0], ast.Continue) \
+            and isinstance(l1b.test, ast.UnaryOp) and isinstance(l1b.test.op, ast.Not)
+        if not ok:
+            raise Skip('_get_types: second statement of the loop is not `if not (...): continue`')
+        inner = l1b.test.operand
+        conj = inner.values if isinstance(inner, ast.BoolOp) and isinstance(inner.op, ast.And) else [inner]
+        origin = [bv, f['loopOriginAttr']]
+        cls_name = None
+        for k, cnd in enumerate(conj):
+            if not (isinstance(cnd, ast.Call) and is_name(cnd.func) and len(cnd.args) == 2 and not cnd.keywords
+                    and attr_chain(cnd.args[0]) == origin and is_name(cnd.args[1])):
+                raise Skip('_get_types: origin-class test has a conjunct outside the subset: ' + ast.unparse(cnd))
+            if cnd.func.id == 'isinstance' and cnd.args[1].id == 'type' and cls_name is None:
+                continue                          # guards issubclass against origins that are no classes; every origin of a class table is one
+            if cnd.func.id == 'issubclass' and cls_name is None and k == len(conj) - 1:
+                cls_name = cnd.args[1].id
+                continue
+            raise Skip('_get_types: origin-class test has a conjunct outside the subset: ' + ast.unparse(cnd))
+        if cls_name not in LIB_CLASS_IDS:
+            raise Skip(f'_get_types: origin-class test names {cls_name}, not a class of the class-table model')
+        f['loopOriginMustDeriveFrom'] = cls_name
     if not (isinstance(l2, ast.Assign) and is_name(l2.targets[0], gbv) and isinstance(l2.value, ast.Call)
             and is_name(l2.value.func, 'get_generic_base') and len(l2.value.args) == 1
             and attr_chain(l2.value.args[0]) == [bv, f['loopOriginAttr']]):
@@ -255,6 +287,20 @@ def gen_generic(repo):
             and attr_chain(vb[0].value.func) == ['self', '_get_types'] and not vb[0].value.args):
         raise Skip('type_vars: not `return self._get_types()`')
     f['libGM'] = class_members(tree, 'GenericMixin')
+    # decorators of the helpers: anything here (functools.lru_cache, functools.cache, …) makes an answer depend on earlier queries
+    # and on how instances hash / compare, because `get_generic_base` receives the instance itself
+    f['getTypesDecorators'] = decorators_of(gt)
+    f['getGenericBaseDecorators'] = decorators_of(ggb)
+    f['typeVarDecorators'] = decorators_of(tv)
+    f['typeVarsDecorators'] = decorators_of(tvs_prop)
+    # module-level state next to the helpers (a hand-written cache) is outside the subset
+    for node in tree.body:
+        if isinstance(node, (ast.Assign, ast.AnnAssign, ast.AugAssign)):
+            raise Skip('generic_mixin.py: module-level assignment (state shared between queries) outside the subset')
+    for fn in (gt, ggb, tv, tvs_prop):
+        for n in ast.walk(fn):
+            if isinstance(n, (ast.Global, ast.Nonlocal)):
+                raise Skip(f'{fn.name}: global / nonlocal statement outside the subset')
     return f
 
 
@@ -437,6 +483,9 @@ def genericBaseArgsAttr : String := {lean_str(g['genericBaseArgsAttr'])}
 def keysFromGenericBase : Bool := {lean_bool(g['keysFromGenericBase'])}
 /-- … and the value is the element that comes from the actual type arguments -/
 def valsFromActualTypes : Bool := {lean_bool(g['valsFromActualTypes'])}
+/-- `if not ([isinstance(base.<origin>, type) and] issubclass(base.<origin>, <Class>)): continue` in the loop: a subscripted base whose
+    origin is not derived from this library class is passed over (`none`: there is no such test) -/
+def loopOriginMustDeriveFrom : Option String := {('some ' + lean_str(g['loopOriginMustDeriveFrom'])) if g['loopOriginMustDeriveFrom'] else 'none'}
 /-- `get_generic_base` keeps only bases with `c.__origin__ == Generic` -/
 def genericFilterChecksOrigin : Bool := {lean_bool(g['genericFilterChecksOrigin'])}
 /-- `return generic_bases[<i>]` -/
@@ -445,6 +494,12 @@ def genericBaseIndex : Int := {g['genericBaseIndex']}
 def typeVarLenOk (n : Nat) : Bool := {g['typeVarLenOk']}
 /-- `return list(types.values())[<i>]` -/
 def typeVarIndex : Nat := {g['typeVarIndex']}
+/-- decorators written above `_get_types`, `get_generic_base` (which receives the INSTANCE), `type_var`, `type_vars`: a caching decorator
+    would make an answer depend on earlier queries and on `__eq__` / `__hash__` of the instances -/
+def getTypesDecorators : List String := [{', '.join(lean_str(a) for a in g['getTypesDecorators'])}]
+def getGenericBaseDecorators : List String := [{', '.join(lean_str(a) for a in g['getGenericBaseDecorators'])}]
+def typeVarDecorators : List String := [{', '.join(lean_str(a) for a in g['typeVarDecorators'])}]
+def typeVarsDecorators : List String := [{', '.join(lean_str(a) for a in g['typeVarsDecorators'])}]
 
 /-! ## create_decorator / WithDecoratedMethods.get_decorated_functions -/
 
